@@ -194,9 +194,9 @@ let header_str (h : vheader) : string =
     lst_str h.hh_samples]
 let lines_str ls = String.concat "," (List.map hex_of_bytes ls)
 let lines_of s = if s = "~" then [] else List.map bytes_of_hex (split_on ',' s)
-let hres ls = match read_header_chk ls with None -> "Err" | Some h -> header_str h
+let hres ls = match read_header_chk_cur ls with None -> "Err" | Some h -> header_str h
 (* a parsed header and what the writer model emits for it *)
-let hres_w ls = match read_header_chk ls with
+let hres_w ls = match read_header_chk_cur ls with
   | None -> "Err"
   | Some h -> header_str h ^ "|" ^ (match write_header h with Some ws -> lines_str ws | None -> "WErr")
 
